@@ -20,6 +20,7 @@ CONSTANTS
   DTs = {1}
   Jumps <- JumpsCover
   GenVersions = {2}
+  VSet = 0
   MaxHeight = 2200
   FocusVals = {1, 2}
 VIEW GView
